@@ -53,6 +53,42 @@ func VerifIntrDispatch() {
 	vReach("end")
 }
 
+// VerifIntrDispatchArrivals: as above but further requests (an arbitrary byte OR-ed into IF) arrive before every one of
+// the five dispatch cycles. Whichever moment the implementation evaluates priority at, the dispatch must be consistent:
+// the vector taken is that of the one IF bit that gets cleared, that bit was enabled and requested, every other request
+// (old or newly arrived) is still there afterwards.
+func VerifIntrDispatchArrivals() {
+	vm := newVerifMachine()
+	vm.havocAtBoundary()
+	c := vm.c
+	ie, iff := vm.intr.ReadIE(), vm.intr.ReadIF()
+	pend := ie & iff & 0x1f
+	vAssume(vm.imeAtBoundary() && pend != 0)
+	pre := *c
+	all := iff
+	n := 0
+	for n < 8 {
+		vm.raise(n)
+		all |= vm.intr.ReadIF()
+		vm.mp.Cycle = n + 1
+		c.ExecuteMachineCycle()
+		n++
+		if c.isFinished() {
+			break
+		}
+	}
+	vAssert("cycles-5", n == 5)
+	after := vm.intr.ReadIF()
+	cleared := all &^ after
+	vAssert("exactly-one-request-acknowledged", cleared != 0 && cleared&(cleared-1) == 0 && cleared&0x1f == cleared)
+	vAssert("acknowledged-was-enabled", cleared&ie != 0)
+	vAssert("vector-matches-acknowledged", c.pc == 0x40+8*uint16(ctz5(cleared)))
+	vAssert("other-requests-kept", after|cleared == all)
+	vAssert("sp", c.sp == pre.sp-2)
+	vAssert("ime-cleared", !vm.intr.Enabled())
+	vReach("end")
+}
+
 // instruction alphabet of the sequence harness
 const (
 	qEI = iota
